@@ -4,7 +4,7 @@
    Columns: [validity 0/1 ...] [raw values ...]; outputs print the value of a null slot as 0.
    Errors: [-1;1] cast error, [-1;8] panic; [-3] = pair / input outside the model (never generated). *)
 From Coq Require Import List ZArith NArith String Bool.
-From AV Require Import Base.Codec Model.C13_Num Model.C13_Decimal Model.C13_Cast Model.C13_Text Model.C13_Interval Model.C13_List.
+From AV Require Import Base.Codec Model.C13_Num Model.C13_Decimal Model.C13_Cast Model.C13_Text Model.C13_Interval Model.C13_List Model.C13_Dict.
 Import ListNotations.
 Local Open Scope string_scope.
 Local Open Scope Z_scope.
@@ -189,9 +189,29 @@ Definition d_list2fsl (a : args) : list (list Z) :=
 Definition s_list2fsl (a : args) : list (list Z) :=
   let '(safe, n, child, offs, valid) := l2f_args a in out_fsl n (list_to_fsl_spec safe n child offs valid).
 
+(* c13.dictbytes.spec: [key kind; value type; target; safe; key prefix] [key validity] [keys] [value validity]
+   [value lengths] [value bytes].  value type 0 Binary, 1 LargeBinary, 2 Utf8, 3 LargeUtf8; target 0 Utf8,
+   1 LargeUtf8, 2 Utf8View, 3 Binary, 4 LargeBinary, 5 BinaryView.
+   Output [row validity] [row lengths] [bytes of the valid rows] | error *)
+Definition s_dictbytes (a : args) : list (list Z) :=
+  let vt := nth 1 (arg 0 a) 0 in let tg := nth 2 (arg 0 a) 0 in let safe := negb (nth 3 (arg 0 a) 0 =? 0) in
+  let check := (vt <? 2) && (tg <? 3) in
+  let keys := map (fun s : bool * Z => if fst s then Some (snd s) else None) (combine (bools_of (arg 1 a)) (arg 2 a)) in
+  let vals := map (fun s : bool * list Z => if fst s then Some (snd s) else None)
+                  (combine (bools_of (arg 3 a)) (split_lens (arg 4 a) (arg 5 a))) in
+  match dict_cast_spec check safe vals keys with
+  | inr 0 => err_out 1
+  | inr _ => unmodelled
+  | inl rows =>
+      [map (fun x : option (list Z) => match x with Some _ => 1 | None => 0 end) rows;
+       map (fun x : option (list Z) => match x with Some l => Z.of_nat (List.length l) | None => 0 end) rows;
+       flat_map (fun x : option (list Z) => match x with Some l => l | None => [] end) rows]
+  end.
+
 Definition ops_C13 : list (string * opfun) :=
   [ ("c13.cast", d_cast); ("c13.cast_m", d_cast); ("c13.cast.spec", s_cast); ("c13.inverse.spec", s_inverse);
     ("c13.fmt", d_fmt); ("c13.parse", d_parse); ("c13.parse.spec", s_parse); ("c13.parse_decimal", d_parse_decimal);
     ("c13.text_rt.spec", s_identity 2 3); ("c13.one.post1", p_one);
     ("c13.ivcast", d_ivcast); ("c13.ivcast.spec", s_ivcast); ("c13.ivfmt", d_ivfmt); ("c13.ivtext_rt.spec", s_ivtext_rt);
-    ("c13.list2fsl", d_list2fsl); ("c13.list2fsl.spec", s_list2fsl) ].
+    ("c13.list2fsl", d_list2fsl); ("c13.list2fsl.spec", s_list2fsl);
+    ("c13.dictbytes.spec", s_dictbytes) ].
